@@ -75,6 +75,9 @@ pub struct ResponderCfg {
     /// ignore the first n matching queries
     #[serde(default)]
     pub skip_first: u32,
+    /// answer the DUT's probes with conflicting SRV / address records, at most this many times per name
+    #[serde(default)]
+    pub conflict_probes: u32,
 }
 
 #[derive(Serialize, Deserialize, Clone, Debug)]
